@@ -37,9 +37,15 @@ add("C18", "reference-function runtime monitor over exhaustive integer windows a
 add("C09", "reference-interpreter runtime monitor: generated control-flow trees rendered by the engine and by an independent interpreter of the tree",
     "Runtime exploration: random nestings of if/elif/else, ifequal/ifnotequal, firstof, for (empty, reversed, sorted, key/value), forloop fields and Parentloop chains, cycle (all forms) and ifchanged (both forms) over lists, strings, maps, nil and scalars are rendered on a fresh compile and compared byte for byte with a reference interpreter. Held = no deviation on the programs observed.",
     "Trusts the 300-line reference interpreter. Unspecified corners are not generated: maps without 'sorted', forloop inside an empty branch, ifchanged in nested multi-iteration loops.")
+add("C10", "reference-resolution runtime monitor over generated inheritance chains served from an in-memory loader; counting context function as evaluation probe",
+    "Runtime exploration: random chains (depth 0-4, plus a sibling branch) with per-level override/inherit/nest/Super/dangling choices are rendered template by template (base before children exist, every chain member, siblings, everything again afterwards; FromFile or FromCache) and compared byte for byte with a reference resolution; invalid shapes must be compile errors; child top-level content must never be evaluated. Held = no deviation on the chains observed.",
+    "Trusts the reference resolution (most-derived definition wins wherever placed; Super = next less-derived). Block recursion through Super is expected to end in an execution error. extends is always the first tag; ExecuteBlocks is not exercised.")
 add("C12", "reference-environment runtime monitor (probe variables around every construct) plus deep snapshots of the caller's Context and the set's Globals before/after every execution; key-validation probes",
     "Runtime exploration: random nestings of with/for/set/if/block/macro/include binding colliding names are probed before, inside and after every construct and compared with a reference scope model; every execution (successful or failing, with and without globals, through all four entry points) is followed by a reflect.DeepEqual comparison of the caller's Context and Globals with pristine copies, after the program sorted/reversed/sliced/iterated/shadowed caller data; invalid identifiers and macro-clashing keys must be refused. Held = no deviation on the executions observed.",
     "Trusts the reference scope model. Macro bodies only read parameters/own bindings/never-bound names; inside 'only' includes only pair names are probed (both corners unspecified).")
+add("C13", "reference-binding runtime monitor for macro calls (local/imported/aliased variants must agree, two contexts per compiled template); recursion graphs observed from an isolating parent process with a counting context function",
+    "Runtime exploration: random signatures/defaults/argument lists are rendered through four definition routes and compared with a reference binding; 19 recursion graphs without base case must end in an execution error (a stack overflow would kill the isolated worker and is reported), with the same depth on 2 compiles x 2 runs; terminating recursions repeated many times must succeed. Held = no deviation on the executions observed.",
+    "Trusts the reference binding. Defaults referring to other parameters are not generated (unspecified).")
 add("C15", "metamorphic runtime monitor: marked document under options vs hand-stripped document under defaults vs output computed from the generator's structure; sibling templates in one set; repeated renders",
     "Runtime exploration: random documents with random whitespace runs and every subset of '-' markers are rendered under all four TrimBlocks x LStripBlocks settings (twice per compiled template, options set on the set or on one template of a shared set) and compared byte for byte with the hand-stripped source's rendering and with the directly computed expected output; spaceless bodies are compared with an independent whitespace-between-tags remover. Held = no deviation on the executions observed.",
     "Trusts the generator's own structure for hand-stripping (no parsing). Verbatim adjacency and comments directly next to a delimiter are not generated (unspecified by the property).")
